@@ -52,8 +52,12 @@ pub mod util {
     #[verifier::accept_recursive_types(T)]
     pub struct SymbolDecl<T> { pub span: diagn::Span, pub name: String, pub depth: usize, pub ctx: SymbolContext, pub item_ref: util::ItemRef<T> }
     impl<T> SymbolManager<T> {
+        /// the declaration stored under a reference (`decls[item_ref.0]`; proved for the real table in U-symbols)
+        pub uninterp spec fn spec_decl(&self, item_ref: util::ItemRef<T>) -> util::SymbolDecl<T>;
         #[verifier::external_body]
-        pub fn get(&self, item_ref: util::ItemRef<T>) -> &util::SymbolDecl<T> { unimplemented!() }
+        pub fn get(&self, item_ref: util::ItemRef<T>) -> (r: &util::SymbolDecl<T>)
+            ensures *r == self.spec_decl(item_ref)
+        { unimplemented!() }
     }
     pub use crate::util_overlap::*;
     //@@INCLUDE _shared/util_bigint_spec_min.rs
